@@ -38,14 +38,15 @@ const FUSED_REDUCE: &str =
     "dfir_rs::dfir_pipes::pull::Reduce::new(|acc: &mut u8, v: u8| { *acc = acc.wrapping_mul(3).wrapping_add(v).wrapping_add(1); })";
 const FUSED_FOLD: &str = "dfir_rs::dfir_pipes::pull::Fold::new(Vec::new, |acc: &mut Vec<u8>, v: u8| { acc.push(v); })";
 
-pub fn op_text(op: &Op) -> String {
+/// Operator text; `in_ty` = Rust type of the node's first input (annotates recording closures).
+pub fn op_text(op: &Op, in_ty: &str) -> String {
     use Op::*;
     match op {
         Src(i) => format!("source_stream(rx{i})"),
         Empty => "source_iter([])".into(),
-        Sink(i) => format!("for_each(|x| rec.push({i}, &x))"),
+        Sink(i) => format!("for_each(|x: {in_ty}| rec.push({i}, &x))"),
         Null => "null()".into(),
-        Probe(i) => format!("inspect(|x| rec.push({i}, x))"),
+        Probe(i) => format!("inspect(|x: &{in_ty}| rec.push({i}, x))"),
         Map(f) => match f {
             MapFn::Swap => format!("map(|(a, b): {KV}| (b, a))"),
             MapFn::SuccSwap => format!("map(|(a, b): {KV}| (b, a.wrapping_add(1)))"),
@@ -127,8 +128,10 @@ pub fn op_text(op: &Op) -> String {
 /// The body of a `dfir_syntax! { .. }` invocation.
 pub fn dfir_source(p: &Prog) -> String {
     let mut s = String::new();
+    let tys = p.types();
     for (i, n) in p.nodes.iter().enumerate() {
-        s.push_str(&format!("    n{i} = {};\n", op_text(&n.op)));
+        let in_ty = n.ins.first().map(|&(a, b)| tys[a][b].as_str()).unwrap_or("_");
+        s.push_str(&format!("    n{i} = {};\n", op_text(&n.op, in_ty)));
     }
     for (i, n) in p.nodes.iter().enumerate() {
         for (port, &(src, sp)) in n.ins.iter().enumerate() {
